@@ -37,7 +37,7 @@
     C01_reachable_roundtrip (+ _fragment, _store)   for EVERY tree an API history can build: value-level
         conditions + writable names => `to_string` succeeds and `parse` gives back exactly that tree
   NON-DEFAULT TOKEN PARAMETERS (very last section; Lemmas/RoundTripParams.lean, Lemmas/SerOpt*.lean):
-    C01_text_unescaped_gt (+ _lexsafe, _spelling)   `unescaped_gt`: `>` raw except right after `]]`; decodes back
+    C01_text_unescaped_gt (+ _lexsafe, _spelling, _input)   `unescaped_gt`: `>` raw except right after `]]`; decodes back
     C01_cdata_run, C01_cdata_sections_carry, C01_cdata_nonXmlChar_unwritable   `serialize_cdata` as a token run
     C01_serialised_is_rendering_params, C01_text_node_tokens   the tokens under any parameters
     C01_roundtrip_unescaped_gt, C01_roundtrip_cdata, C01_roundtrip_params (+ _fragment, _writable)
@@ -882,6 +882,12 @@ theorem C01_text_unescaped_gt_spelling (s : Str) :
     renderPieces (gtPieces [] s) = serializeText true s ∧ valueOf false (gtPieces [] s) = s ∧
       WellSpelled (gtPieces [] s) :=
   ⟨renderPieces_txtPieces true s, valueOf_gtPieces s [], wellSpelled_gtPieces s []⟩
+
+/-- The same rule on the INPUT (`gtIn`, Lemmas/RoundTripParams.lean: `rin` = the characters read so far,
+    reversed): a `>` is written `&gt;` exactly when the two characters of the text before it are `]]`, raw
+    otherwise — the output ends with `]]` iff the input read so far does. -/
+theorem C01_text_unescaped_gt_input (s : Str) : serializeText true s = gtIn [] s :=
+  serializeText_true_input s
 
 example : serializeText true "a]]>b>c".toList = "a]]&gt;b>c".toList := by decide
 example : serializeText true "]>]]]>>".toList = "]>]]]&gt;>".toList := by decide
